@@ -1,5 +1,6 @@
 import Drivers.Proto
 import PymocaVerif.Model.ExprGrammar
+import PymocaVerif.Model.ExprSpec
 /-! Driver for C03: the table-driven expression parser, the Modelica printer and the literal values of
     `PymocaVerif.Model.ExprGrammar` over JSON.
 
@@ -101,7 +102,7 @@ def optTree : Option E → Json
   | some e => treeToJson e
   | none => Json.null
 
-def fuelFor (ts : List Tok) : Nat := 8 * ts.length + 16
+def fuelFor (ts : List Tok) : Nat := 12 * ts.length + 24
 
 def handle (req : Json) : Except String Json := do
   let op ← getStr req "op"
@@ -112,7 +113,9 @@ def handle (req : Json) : Except String Json := do
     pure (Json.mkObj [("ok", true),
       ("tokens", Json.arr (ts.map tokToJson).toArray),
       ("expected", treeToJson (expected e)),
-      ("parsed", optTree (parseTop modelicaTbl (fuelFor ts) ts))])
+      ("stripped", treeToJson (strip e)),
+      ("parsed", optTree (parseTop modelicaTbl (fuelFor ts) ts)),
+      ("spec", optTree (specParse (fuelFor ts) ts))])
   | "print" => do
     let e ← treeOfJson (← getObj req "tree")
     let ts := pr modelicaTbl 0 e
@@ -128,7 +131,10 @@ def handle (req : Json) : Except String Json := do
     let r := match r with
       | some e => some e
       | none => parseTop modelicaTbl (64 * ts.length + 64) ts
-    pure (Json.mkObj [("ok", true), ("tree", optTree r)])
+    let s := match specParse (fuelFor ts) ts with
+      | some e => some e
+      | none => specParse (64 * ts.length + 64) ts
+    pure (Json.mkObj [("ok", true), ("tree", optTree r), ("spec", optTree s)])
   | "lit" => do
     let lex ← getStr req "lexeme"
     match litValue lex with
